@@ -315,6 +315,9 @@ def classify(e):
     return k
 
 
+REPLAY_EXACT = True      # replay() re-executes exactly the stored case
+
+
 def run(ctx):
     ctx.assumptions += ['TLC/SANY and CommunityModules (FoldLeft, Json) are correct',
                         'JSON marshalling of octets as integer lists between Python and TLC',
